@@ -1,4 +1,5 @@
 import GqlgenVerif.Gen.RewriteOffsets
+import GqlgenVerif.Gen.ReserveFacts
 /-!
 # Model of resolver regeneration  (property C19)
 
@@ -37,6 +38,7 @@ Text is `List Char`. Core Lean only.
 -/
 namespace GqlgenVerif.Rewrite
 open GqlgenVerif.Gen.RewriteOffsets
+open GqlgenVerif.Gen.ReserveFacts
 
 abbrev Text := List Char
 
@@ -233,6 +235,25 @@ def existingImports (p : Pkg) (name : String) : List Import :=
   | some (_, f) => f.imports
   | none => []
 
+-- ---------------------------------------------------------------- the bytes the rewriter slices
+
+/-- `strings.ReplaceAll(s, "\r\n", "\n")` -/
+def normCRLF : Text → Text
+  | [] => []
+  | [c] => [c]
+  | c :: d :: t => if c = '\r' ∧ d = '\n' then '\n' :: normCRLF t else c :: normCRLF (d :: t)
+
+/-- what `(*Rewriter).getFile` caches for the bytes of a file -/
+def cachedWith (form : CacheForm) (bytes : Text) : Text :=
+  match form with
+  | .raw => bytes
+  | .crlfToLf => normCRLF bytes
+
+/-- `getSource(start, end)` of a file whose bytes are `bytes`: `start`/`end` are the byte offsets go/parser computed on
+`bytes`; the text that is sliced is the cached one (form regenerated, `Gen/ReserveFacts.cacheForm`) -/
+def getSourceWith (form : CacheForm) (bytes : Text) (s e : Nat) : Text := ((cachedWith form bytes).drop s).take (e - s)
+def getSourceOf (bytes : Text) (s e : Nat) : Text := getSourceWith cacheForm bytes s e
+
 -- ---------------------------------------------------------------- imports
 
 /-- the `reserveImport` lines at the top of resolver.gotpl (alias = package name) -/
@@ -246,12 +267,22 @@ def ambient : List Import := [
 /-- the name the user's import spec binds in the old file -/
 def userLocal (i : Import) : String := if i.alias == "" then i.pkg else i.alias
 
+/-- the name `Reserve` looks up among the aliases already taken: the name the import will have in the file, or
+(a variant of the source, seeded change C19-11) the package's real name whatever the alias -/
+def collisionName (key : CollisionKey) (i : Import) : String :=
+  match key with
+  | .alias => userLocal i
+  | .name => i.pkg
+
 /-- `Imports.Reserve(path, alias?)` with the error ignored, as `File.Imports` does: a path that is
 already there, or an alias that is already taken, silently drops the import. The reserved entry's
 `alias` is always explicit (the package name when the user gave none). -/
-def reserve1 (acc : List Import) (i : Import) : List Import :=
-  if acc.any (·.path == i.path) || acc.any (·.alias == userLocal i) then acc
+def reserve1With (key : CollisionKey) (acc : List Import) (i : Import) : List Import :=
+  if acc.any (·.path == i.path) || acc.any (·.alias == collisionName key i) then acc
   else acc ++ [{ i with alias := userLocal i }]
+
+/-- … with the lookup key that is in the source now (regenerated, `Gen/ReserveFacts.collisionKey`) -/
+def reserve1 (acc : List Import) (i : Import) : List Import := reserve1With collisionKey acc i
 
 def reserve (user : List Import) : List Import := user.foldl reserve1 ambient
 
